@@ -272,6 +272,9 @@ def run(ctx):
     mism, errs = C.coq_eval_shards(PROP, HEADER, coq, per=30)
     corr_errors += errs
     corr_mismatches = [{"layer": "analytic update expressions (propagator symbols bound to independent rationals) vs Model/Propagator.update", "case": info[i]} for i in mism[:8]]
+    # failures found in the deterministic same-interpreter sequences first: they replay on their own (a failure of an
+    # isolated task that was caused by what its worker had analysed before does not)
+    probe_failures.sort(key=lambda pf_: 0 if ((pf_.get("replay") or {}).get("task") or {}).get("sequence") else 1)
     return {"evaluations": len(coq), "distinct_nontrivial": len(nontriv),
             "rule": "hand-written corpus (oscillators, antisymmetric/damped couplings, non-adjacent coupling, repeated eigenvalues, nilpotent chain, both offset forms, dependence on an offset equation) with all entry permutations + random linear systems (random couplings, chains, fans, symbolic/numeric decay constants, offsets); distinct by hash of the input; non-trivial = an analytical solver was returned and compared",
             "samples": samples, "distribution": dist,
